@@ -50,6 +50,7 @@ type config struct {
 	HookFails    int               `json:"start_hook_failures"`
 	DispatchHook bool              `json:"dispatch_hook"`
 	NotFoundPage bool              `json:"not_found_page"`
+	Pkce         bool              `json:"pkce"`
 }
 
 var authKinds = []string{"none", "accept", "bearer", "reject-value", "reject-proxy-required", "reject-permission", "unavailable", "plain-error"}
@@ -64,8 +65,16 @@ func genConfig(i int, rng *rand.Rand) config {
 		Compression: []int{-1, -1, 0, 3}[rng.IntN(4)], OAuth: b(), External: b(),
 		Auth: authKinds[rng.IntN(len(authKinds))], HookFails: []int{0, 0, 1, 3}[rng.IntN(4)], DispatchHook: b(), NotFoundPage: b(),
 	}
+	// PKCE login routes (they answer through ServeHTTP like every other route).
+	if c.Auth != "none" && rng.IntN(6) == 0 {
+		c.Pkce, c.OAuth = true, true
+	}
 	if c.Sticky {
-		switch rng.IntN(3) {
+		switch rng.IntN(5) {
+		case 3:
+			c.Echo = map[string]string{"x_a.b1": "v", "UPPER-CASE": "V"}
+		case 4:
+			c.Echo = map[string]string{"a": "", "X-9": "0"}
 		case 1:
 			c.Echo = map[string]string{"fly-force-instance-id": "i-123"}
 		case 2:
@@ -128,7 +137,7 @@ func build(c config) *sut {
 	}
 	if c.OAuth {
 		if err := h.SetOAuthResourceMetadata(&vgirpc.OAuthResourceMetadata{Resource: "https://api.example.com" + c.Prefix,
-			AuthorizationServers: []string{"https://idp.example"}, ClientID: "cid"}); err != nil {
+			AuthorizationServers: []string{"http://127.0.0.1:9"}, ClientID: "cid"}); err != nil {
 			panic(err)
 		}
 	}
@@ -154,6 +163,11 @@ func build(c config) *sut {
 		h.SetAuthenticate(func(*http.Request) (*vgirpc.AuthContext, error) { return nil, vgirpc.NewAuthUnavailable("down") })
 	case "plain-error":
 		h.SetAuthenticate(func(*http.Request) (*vgirpc.AuthContext, error) { return nil, errors.New("bug") })
+	}
+	if c.Pkce {
+		if err := h.SetOAuthPkce(vgirpc.OAuthPkceConfig{}); err != nil {
+			panic(err)
+		}
 	}
 	if c.Introspect {
 		if err := h.EnableTokenIntrospection(vgirpc.TokenIntrospectionConfig{Resolver: wf.Resolver, Principals: []string{"proxy"}, RateLimitPerSecond: 1 << 30}); err != nil {
@@ -192,7 +206,7 @@ func rid(rng *rand.Rand, n int) string {
 }
 
 var idShapes = []string{"absent", "empty", "spaces", "len1", "len128", "len129", "padded128", "tab-padded", "padded129", "inner-space",
-	"utf8-within", "utf8-over-bytes", "hex16", "len500", "short"}
+	"utf8-within", "utf8-over-bytes", "hex16", "len500", "short", "high-bytes", "unicode-space-padded"}
 
 func genID(rng *rand.Rand, shape string) idCase {
 	switch shape {
@@ -227,6 +241,28 @@ func genID(rng *rand.Rand, shape string) idCase {
 			sb.WriteByte(hx[rng.IntN(16)])
 		}
 		return idCase{shape, true, "c" + sb.String()[1:]} // caller-chosen id shaped like a minted one
+	case "high-bytes":
+		// obs-text bytes (legal in a header value, not valid UTF-8), including
+		// 0x85 / 0xA0 at the edges, which are NOT white space as single bytes
+		b := make([]byte, 2+rng.IntN(100))
+		for i := range b {
+			b[i] = byte(0x80 + rng.IntN(0x80))
+		}
+		b[0], b[len(b)-1] = []byte{0x85, 0xA0, 0xFF}[rng.IntN(3)], []byte{0x85, 0xA0, 0x80}[rng.IntN(3)]
+		// Random bytes can happen to spell a UTF-8 white-space rune at an edge
+		// (C2 A0, C2 85); that belongs to the unjudged unicode-space shape.
+		if len(b) > 1 && (b[len(b)-2] == 0xC2 || b[len(b)-2]&0xE0 == 0xE0 || (len(b) > 2 && b[len(b)-3]&0xF0 == 0xE0)) {
+			b[len(b)-2] = 0xFF
+		}
+		if strings.TrimSpace(string(b)) != string(b) {
+			b[0], b[len(b)-1] = 0xFF, 0xFF
+		}
+		return idCase{shape, true, string(b)}
+	case "unicode-space-padded":
+		// Unicode white space at the edges (NBSP, EM SPACE, NEL): whether
+		// "trimmed" covers it is not decided by the statement; observed only.
+		sp := []string{"\u00a0", "\u2003", "\u0085", "\u3000"}
+		return idCase{shape, true, sp[rng.IntN(4)] + rid(rng, 1+rng.IntN(30)) + sp[rng.IntN(4)]}
 	case "len500":
 		return idCase{shape, true, rid(rng, 500)}
 	}
@@ -300,6 +336,18 @@ func (u *sut) requests(rng *rand.Rand, session string) []reqSpec {
 	add("other-verb", "PUT", P+"/echo", arrow(), unaryBody("echo"))
 	add("other-verb", "HEAD", P+"/echo", nil, nil)
 	add("other-verb", "PUT", P+"/__upload_url__/init", arrow(), nil)
+	add("other-verb", "PATCH", P+"/echo", arrow(), unaryBody("echo"))
+	add("other-verb", "PROPFIND", P+"/count/init", nil, nil)
+	add("other-verb", "TRACE", "/health", nil, nil)
+	if u.c.Pkce {
+		add("pkce", "GET", P+"/_oauth/callback", nil, nil)
+		add("pkce", "GET", P+"/_oauth/callback?code=x&state=y", nil, nil)
+		add("pkce", "GET", P+"/_oauth/logout", nil, nil)
+		add("pkce", "POST", P+"/_oauth/token", http.Header{"Content-Type": {"application/x-www-form-urlencoded"}}, []byte("grant_type=refresh_token&refresh_token=z"))
+		add("pkce", "POST", P+"/_oauth/token", http.Header{"Content-Type": {"text/plain"}}, []byte("x"))
+		add("pkce", "OPTIONS", P+"/_oauth/token", http.Header{"Origin": {"https://app.example"}}, nil)
+		add("pkce", "GET", P+"/describe", http.Header{"Accept": {"text/html"}}, nil)
+	}
 	add("session-delete-no-token", "DELETE", P+"/__session__", nil, nil)
 	// compression negotiation
 	h1 := arrow()
@@ -361,7 +409,7 @@ func main() {
 		"emitted:vgi-auth-proxy-required", "emitted:x-vgi-content-encoding", "emitted:x-vgi-rpc-error", "emitted:vgi-max-request-bytes",
 		"emitted:vgi-upload-url-support", "emitted:vgi-max-upload-bytes", "emitted:vgi-proxy-proof-required", "emitted:vgi-token-introspection",
 		"emitted:vgi-sticky-enabled", "emitted:vgi-sticky-echo-headers", "emitted:vgi-max-response-bytes", "emitted:vgi-max-externalized-response-bytes",
-		"caps:empty-encodings-value", "caps:externalization-true", "caps:externalization-false"}
+		"caps:empty-encodings-value", "caps:externalization-true", "caps:externalization-false", "kind:pkce"}
 	for _, s := range idShapes {
 		req = append(req, "id:"+s)
 	}
@@ -398,6 +446,7 @@ func main() {
 				afterHook := u.hookOK
 				r.Class(fmt.Sprintf("status:%d", ex.Status))
 				r.Class("id:" + id.Shape)
+				r.Class("kind:" + sp.Kind)
 				if afterHook {
 					r.Class("hook:succeeded-response")
 				} else {
@@ -419,6 +468,16 @@ func main() {
 				case !present || len(got) == 0:
 					r.Violation(fmt.Sprintf("reqid:missing:%d:%s", ex.Status, sp.Kind),
 						fmt.Sprintf("%s %s answered %d without X-Request-ID", sp.Method, sp.Target, ex.Status), witness)
+				case id.Shape == "unicode-space-padded":
+					switch got[0] {
+					case id.Value:
+						r.Class("observed-not-judged:unicode-space-kept")
+					case strings.TrimSpace(id.Value):
+						r.Class("observed-not-judged:unicode-space-trimmed")
+					default:
+						r.Violation("reqid:echo-differs:unicode-space-padded",
+							fmt.Sprintf("caller id %q answered with %q: neither the id nor the id without its edge white space", id.Value, got[0]), witness)
+					}
 				case id.Set && len(trimmed) >= 1 && len(trimmed) <= 128:
 					if got[0] != trimmed {
 						r.Violation("reqid:echo-differs:"+id.Shape,
